@@ -471,3 +471,10 @@ func mustJSON(v any) []byte {
 	}
 	return b
 }
+
+func getenvDefault(k, d string) string {
+	if v := os.Getenv(k); v != "" {
+		return v
+	}
+	return d
+}
